@@ -24,6 +24,7 @@ type SpecEnv struct {
 	pkg   *types.Package
 	info  *types.Info
 	src   *SpecExpr
+	freshBase string // allocation pointer that isfresh() compares against ("" = function entry)
 }
 
 func (en *SpecEnv) fail(format string, a ...interface{}) {
@@ -570,7 +571,11 @@ func (en *SpecEnv) evalCall(c *ast.CallExpr) Val {
 		} else if v.K == KIface {
 			r = v.Dat
 		}
-		return boolVal(mkOr(mkEq(r, "0"), mkCmp(">=", r, en.x.eng.declare("alloc@0", sInt))))
+		base := en.freshBase
+		if base == "" {
+			base = en.x.eng.declare("alloc@0", sInt)
+		}
+		return boolVal(mkOr(mkEq(r, "0"), mkCmp(">=", r, base)))
 	case "isnil":
 		v := en.eval(c.Args[0])
 		return boolVal(en.equal(v, Val{K: KInt, S: "0"}))
